@@ -32,6 +32,9 @@ void CDNS::Timestamp::add_time_offset(int64_t offset, uint64_t ticks_per_second)
     if (offset < 0 && -(offset + 1) >= ticks)
         throw std::runtime_error("Adding offset to Timestamp would create invalid Timestamp!");
 
+    if (offset > 0 && ticks > INT64_MAX - offset)
+        throw std::runtime_error("Adding offset to Timestamp would overflow the Timestamp!");
+
     ticks += offset;
     m_secs = ticks / ticks_per_second;
     m_ticks = ticks % ticks_per_second;
